@@ -76,7 +76,7 @@ func Screen(c *core.Ctx, bin, tag string, cases []*Case, o PkgOpts, st *BuildSta
 		next <- i
 	}
 	close(next)
-	workers := 16
+	workers := parOf(1, 2)
 	errs := make([]error, workers)
 	var wg sync.WaitGroup
 	for w := 0; w < workers; w++ {
